@@ -53,8 +53,9 @@ Qed.
 
 (* ------------------------------------------------------------------ what a stored code says *)
 
-Definition nontrans (c : string) : bool :=
-  match decode c with Some n => negb (eq_arg (fmt n) (Some NF_TRANSIENT)) | None => false end.
+(* the stored identifier is of persistent format: what match_local_id looks at *)
+Definition pers (c : string) : bool :=
+  match decode c with Some n => eq_arg (fmt n) (Some NF_PERSISTENT) | None => false end.
 
 Definition ckey (c : string) : option string * option string :=
   match decode c with Some n => (normo (spq n), normo (nq n)) | None => (None, None) end.
@@ -67,9 +68,9 @@ Proof.
   intros Hf. destruct o as [[|a s]|]; try reflexivity. cbn. destruct f; [congruence|reflexivity].
 Qed.
 
-Lemma nontrans_code n : nontrans (code n) = negb (eq_arg (fmt n) (Some NF_TRANSIENT)).
+Lemma pers_code n : pers (code n) = eq_arg (fmt n) (Some NF_PERSISTENT).
 Proof.
-  unfold nontrans. rewrite decode_code. cbn [norm fmt]. rewrite eq_arg_normo_fmt by discriminate. reflexivity.
+  unfold pers. rewrite decode_code. cbn [norm fmt]. rewrite eq_arg_normo_fmt by discriminate. reflexivity.
 Qed.
 
 Lemma ckey_code n : ckey (code n) = (normo (spq n), normo (nq n)).
@@ -120,27 +121,27 @@ Qed.
 (* first_match: what its answers mean *)
 Lemma first_match_none l s q :
   first_match l s q = Ok None ->
-  forall c, In c l -> exists m, decode c = Some m /\ (eq_arg (fmt m) (Some NF_TRANSIENT) = true \/ nid_matches m s q = false).
+  forall c, In c l -> exists m, decode c = Some m /\ (eq_arg (fmt m) (Some NF_PERSISTENT) = false \/ nid_matches m s q = false).
 Proof.
   induction l as [|c0 r IH]; [intros _ c []|]. cbn [first_match].
   destruct (decode c0) as [m0|] eqn:Ed; [|discriminate].
-  destruct (eq_arg (fmt m0) (Some NF_TRANSIENT)) eqn:Et.
-  - intros H c [<-|Hc]; [exists m0; auto|apply IH; assumption].
+  destruct (eq_arg (fmt m0) (Some NF_PERSISTENT)) eqn:Et; cbn [negb].
   - destruct (nid_matches m0 s q) eqn:Em; [discriminate|].
     intros H c [<-|Hc]; [exists m0; auto|apply IH; assumption].
+  - intros H c [<-|Hc]; [exists m0; auto|apply IH; assumption].
 Qed.
 
 Lemma first_match_some l s q m :
   first_match l s q = Ok (Some m) ->
-  exists c, In c l /\ decode c = Some m /\ eq_arg (fmt m) (Some NF_TRANSIENT) = false /\ nid_matches m s q = true.
+  exists c, In c l /\ decode c = Some m /\ eq_arg (fmt m) (Some NF_PERSISTENT) = true /\ nid_matches m s q = true.
 Proof.
   induction l as [|c0 r IH]; [discriminate|]. cbn [first_match].
   destruct (decode c0) as [m0|] eqn:Ed; [|discriminate].
-  destruct (eq_arg (fmt m0) (Some NF_TRANSIENT)) eqn:Et.
-  - intros H. destruct (IH H) as (c & Hc & Hr). exists c. split; [right; exact Hc|exact Hr].
+  destruct (eq_arg (fmt m0) (Some NF_PERSISTENT)) eqn:Et; cbn [negb].
   - destruct (nid_matches m0 s q) eqn:Em.
     + intros H. inversion H; subst. exists c0. repeat split; auto. left; reflexivity.
     + intros H. destruct (IH H) as (c & Hc & Hr). exists c. split; [right; exact Hc|exact Hr].
+  - intros H. destruct (IH H) as (c & Hc & Hr). exists c. split; [right; exact Hc|exact Hr].
 Qed.
 
 Lemma in_elements_fw d u v c : lookup u d = Some v -> In c (elements v) -> c = "" \/ In c (fw d u).
@@ -167,7 +168,8 @@ Section Inv.
     inv_keys : forall k v, is_user k = false -> lookup k d = Some v -> In k seen /\ k <> "";
     inv_nodup : forall u, is_user u = true -> NoDup (map ctext (fw d u));
     inv_single : forall u c1 c2, is_user u = true -> In c1 (fw d u) -> In c2 (fw d u) ->
-                 nontrans c1 = true -> nontrans c2 = true -> ckey c1 = ckey c2 -> c1 = c2
+                 pers c1 = true -> pers c2 = true -> ckey c1 = ckey c2 -> c1 = c2;
+    inv_noempty : forall u v x, is_user u = true -> lookup u d = Some v -> In x (elements v) -> x <> ""
   }.
 
   Lemma inv_init : Inv [] [].
@@ -179,11 +181,12 @@ Section Inv.
     - intros k v _ H. discriminate.
     - intros u _. constructor.
     - intros u c1 c2 _ [].
+    - intros u v x _ H. discriminate.
   Qed.
 
   Lemma inv_weaken seen seen' d : Inv seen d -> incl seen seen' -> Inv seen' d.
   Proof.
-    intros [H1 H2 H3 H4 H5 H6] Hi. constructor; try assumption.
+    intros [H1 H2 H3 H4 H5 H6 H7] Hi. constructor; try assumption.
     intros k v Hk Hl. destruct (H4 k v Hk Hl) as [Ha Hb]. split; [apply Hi; exact Ha|exact Hb].
   Qed.
 
@@ -226,10 +229,10 @@ Section Inv.
   Definition Has (d : db) (u t : string) : Prop := exists c, In c (fw d u) /\ ctext c = Some t.
 
   Definition Owner (d : db) (t u : string) (k : option string * option string) (b : bool) : Prop :=
-    forall u' c, is_user u' = true -> In c (fw d u') -> ctext c = Some t -> u' = u /\ ckey c = k /\ nontrans c = b.
+    forall u' c, is_user u' = true -> In c (fw d u') -> ctext c = Some t -> u' = u /\ ckey c = k /\ pers c = b.
 
   Lemma owner_of seen d u c t :
-    Inv seen d -> is_user u = true -> In c (fw d u) -> ctext c = Some t -> Owner d t u (ckey c) (nontrans c).
+    Inv seen d -> is_user u = true -> In c (fw d u) -> ctext c = Some t -> Owner d t u (ckey c) (pers c).
   Proof.
     intros HI Hu Hc Ht u' c' Hu' Hc' Ht'.
     destruct (inv_entry _ _ u c HI Hu Hc) as (_ & t1 & _ & _ & _ & _ & E1 & L1 & _).
@@ -247,7 +250,7 @@ Section Inv.
 
   (* ---------------------------------------------------------------- store one identifier *)
   Definition single_cond (d : db) (u : string) (n : nameid) : Prop :=
-    nontrans (code n) = true -> forall c, In c (fw d u) -> nontrans c = true -> ckey c <> ckey (code n).
+    pers (code n) = true -> forall c, In c (fw d u) -> pers c = true -> ckey c <> ckey (code n).
 
   Section Store.
     Variables (d : db) (u : string) (n : nameid) (t : string).
@@ -322,6 +325,17 @@ Section Inv.
         + subst k c2. exfalso. exact (Hsingle N2 c1 H1' N1 Ek).
         + subst k c1. exfalso. apply (Hsingle N1 c2 H2' N2). symmetry. exact Ek.
         + subst c1 c2. reflexivity.
+      - intros k v x Hk Hl Hx. destruct (string_dec k u) as [->|Hku].
+        + unfold d' in Hl. rewrite store_db_fw, lookup_set_neq, lookup_set_eq in Hl by (intros E; subst; congruence).
+          assert (Ev : v = join " " (fw d u ++ [code n])) by congruence. subst v. rewrite elements_join in Hx.
+          * apply in_app_iff in Hx as [Hx|[<-|[]]].
+            -- unfold fw in Hx. destruct (lookup u d); [|destruct Hx]. apply filter_In in Hx as [_ Hx].
+               apply nonempty_iff. exact Hx.
+            -- apply code_nonempty. rewrite Ht. apply truthy_some. exact Hne.
+          * destruct (fw d u); discriminate.
+          * intros y Hy. apply in_app_iff in Hy as [Hy|[<-|[]]]; [apply (fw_no_space d u y Hy)|apply code_no_space].
+        + unfold d' in Hl. rewrite lookup_store_db in Hl; [|exact Hku|intros E; subst; congruence].
+          apply (inv_noempty _ _ HI k v x Hk Hl Hx).
     Qed.
 
     Lemma store_has k t0 : is_user k = true -> Has d k t0 -> Has d' k t0.
@@ -357,14 +371,14 @@ Section Inv.
     { destruct (in_elements_fw d id v (code n) Hv Hin) as [E|H]; [contradiction|exact H]. }
     assert (Htid : t <> id) by (intros E; subst; congruence).
     pose proof (ctext_code_some n t Ht Hne) as Hct.
-    set (d0 := set id (join " " (remove_first (code n) (elements v))) d).
+    set (d0 := put_rest id (remove_first (code n) (elements v)) d).
     assert (Hfw_id : fw (del t d0) id = remove_first (code n) (fw d id)).
     { rewrite fw_del_other by congruence. unfold d0. apply fw_remove; assumption. }
     assert (Hlk : forall k, k <> id -> k <> t -> lookup k (del t d0) = lookup k d).
-    { intros k H1 H2. rewrite lookup_del_neq by exact H2. unfold d0. apply lookup_set_neq. exact H1. }
+    { intros k H1 H2. rewrite lookup_del_neq by exact H2. unfold d0. apply lookup_put_rest. exact H1. }
     assert (Hfw_o : forall k, is_user k = true -> k <> id -> fw (del t d0) k = fw d k).
     { intros k Hk Hkid. rewrite fw_del_other by (intros E; subst; congruence).
-      unfold d0. apply fw_set_other. exact Hkid. }
+      unfold d0. apply fw_put_rest_other. exact Hkid. }
     assert (Hsub : forall k c, is_user k = true -> In c (fw (del t d0) k) -> In c (fw d k)).
     { intros k c Hk Hc. destruct (string_dec k id) as [->|Hkid].
       - rewrite Hfw_id in Hc. apply in_remove_first in Hc. exact Hc.
@@ -396,13 +410,25 @@ Section Inv.
         * rewrite Hfw_id. apply nodup_map_remove_first. apply (inv_nodup _ _ HI id Hk).
         * rewrite Hfw_o by assumption. apply (inv_nodup _ _ HI k Hk).
       + intros k c1 c2 Hk H1 H2. apply (inv_single _ _ HI k c1 c2 Hk (Hsub k c1 Hk H1) (Hsub k c2 Hk H2)).
+      + intros k v0 x Hk Hl0 Hx. destruct (string_dec k id) as [->|Hkid].
+        * rewrite lookup_del_neq in Hl0 by (intros E; subst; congruence). unfold d0, put_rest in Hl0.
+          destruct (remove_first (code n) (elements v)) as [|a r] eqn:Er.
+          -- rewrite lookup_del_eq in Hl0. discriminate.
+          -- rewrite lookup_set_eq in Hl0. assert (Ev0 : v0 = join " " (a :: r)) by congruence. subst v0.
+             rewrite <- Er in Hx.
+             rewrite elements_join in Hx.
+             ++ apply in_remove_first in Hx. apply (inv_noempty _ _ HI id v x Hk Hv Hx).
+             ++ rewrite Er. discriminate.
+             ++ intros y Hy. apply in_remove_first in Hy. apply (elements_no_space v y Hy).
+        * rewrite Hlk in Hl0; [|exact Hkid|intros E; subst; congruence].
+          apply (inv_noempty _ _ HI k v0 x Hk Hl0 Hx).
   Qed.
 
   (* identifiers that differ in sp_provided_id only *)
   Lemma code_same_view n n' :
     nq n' = nq n -> spq n' = spq n -> fmt n' = fmt n -> txt n' = txt n ->
-    ckey (code n') = ckey (code n) /\ nontrans (code n') = nontrans (code n) /\ ctext (code n') = ctext (code n).
+    ckey (code n') = ckey (code n) /\ pers (code n') = pers (code n) /\ ctext (code n') = ctext (code n).
   Proof.
-    intros E1 E2 E3 E4. rewrite !ckey_code, !nontrans_code, !ctext_code, E1, E2, E3, E4. auto.
+    intros E1 E2 E3 E4. rewrite !ckey_code, !pers_code, !ctext_code, E1, E2, E3, E4. auto.
   Qed.
 End Inv.
